@@ -280,8 +280,14 @@ def run_sharded(cases, tag, profile="debug", want_model=True):
                 for c, r in zip(tcases, ex.map(safe, tcases)):
                     impl[c.split("\t")[0]] = r
         if want_model:
-            _, m2, e2 = run_sharded_(ccases, tag + "c", profile, True, want_impl=False)
+            # ids ending in "!nomodel" are implementation-only cases (judged by the oracle alone): the model is given a stub
+            mcases = [c for c in ccases if not c.split("\t")[0].endswith("!nomodel")]
+            _, m2, e2 = run_sharded_(mcases, tag + "c", profile, True, want_impl=False)
             model.update(m2)
+            for c in ccases:
+                cid = c.split("\t")[0]
+                if cid.endswith("!nomodel"):
+                    model[cid] = ("ok", "")
             errs += e2
         return impl, model, errs
     return run_sharded_(cases, tag, profile, want_model)
@@ -313,7 +319,7 @@ def run_sharded_(cases, tag, profile="debug", want_model=True, want_impl=True):
 
     def work(j):
         kind, cmd, outp = j
-        p = subprocess.run(cmd, stdout=subprocess.DEVNULL, stderr=subprocess.PIPE, timeout=3000, preexec_fn=big_stack)
+        p = subprocess.run(cmd, stdout=subprocess.DEVNULL, stderr=subprocess.PIPE, timeout=900, preexec_fn=big_stack)
         return kind, outp, p.returncode, p.stderr.decode("utf-8", "replace")[-500:]
 
     impl, model = {}, {}
